@@ -11,8 +11,8 @@ rsync -a --exclude .git $src/ $d/repo/
 rsync -a /verif/harness/ $d/harness/
 sed -i "s#=> /repo#=> $d/repo#" $d/harness/go.mod
 cp $d/repo/go.sum $d/harness/
-( cd $d/harness && go build -tags verif -o $d/h . ) || { echo "harness does not build"; rm -rf $d; exit 2; }
-( cd $d/out && timeout 1200 $d/h $cmd -out $d/out -seed $seed -tier quick > $d/out/stdout.txt 2>&1 )
+( cd $d/harness && mkdir -p $d/bin && go build -tags verif -o $d/bin/harness . ) || { echo "harness does not build"; rm -rf $d; exit 2; }
+( cd $d/out && timeout 1200 $d/bin/harness $cmd -out $d/out -seed $seed -tier quick > $d/out/stdout.txt 2>&1 )
 python3 - $d/out/report.json <<'P'
 import json,sys,collections
 try: r=json.load(open(sys.argv[1]))
